@@ -269,6 +269,10 @@ def tasks(tier):
           ('contracts.c19', 'decr_negates', ())]
     for m in ROUTES:
         ts.append(('contracts.c19', 'routes', (m,)))
+    # the backend's answers are those of Cache.<method> (through FanoutCache, C13): their contracts, in particular
+    # "a key is gone from the instant its expiry time is reached" for every operation alike
+    from contracts import c03
+    ts += c03.dependency_tasks('C19', ['set', 'add', 'get', 'touch', 'incr', 'pop', 'delete', '__contains__'])
     return ts
 
 
